@@ -508,7 +508,13 @@ impl<'a> Run<'a> {
 				// is replayed after every restart until the off-chain claim completes) are diagnostics
 				let onchain = ["ChannelClosed", "SpendableOutputs", "PaymentPathFailed", "PaymentFailed", "PaymentSent",
 					"PaymentPathSuccessful", "HTLCHandlingFailed", "ChannelReady", "BumpTransaction", "DiscardFunding"];
-				if onchain.iter().any(|k| s.starts_with(k)) { self.evs.push(s); }
+				if onchain.iter().any(|k| s.starts_with(k)) {
+					// which of "counterparty commitment confirmed" / "HTLC timed out, own commitment
+					// broadcast" closes the channel first legitimately depends on whether the tip or the
+					// transactions are announced first (see ConnectStyle::BestBlockFirst*): one conclusion
+					let c = if s == "ChannelClosed:CommitmentTxConfirmed" || s == "ChannelClosed:HTLCsTimedOut" { "ChannelClosed:onchain".to_string() } else { s };
+					self.evs.push(c);
+				}
 				if let Some(i) = irr { self.irrev.push(i); }
 			}
 			for m in msgs {
@@ -640,7 +646,7 @@ impl<'a> Run<'a> {
 		}
 		chans.sort();
 		let chain = self.chain_of(tip);
-		let key = format!("{}|{}", self.s.name, chain.iter().skip(1).map(|b| self.blks[*b].roles.iter().map(|r| r.to_string()).collect::<Vec<_>>().join(",")).collect::<Vec<_>>().join(";"));
+		let key = format!("{}|{}|{}", self.s.name, chain.len() - 1, chain.iter().skip(1).map(|b| self.blks[*b].roles.iter().map(|r| r.to_string()).collect::<Vec<_>>().join(",")).collect::<Vec<_>>().join(";"));
 		let mut evs = std::mem::take(&mut self.evs);
 		evs.sort();
 		let mut msgs = std::mem::take(&mut self.msgs);
